@@ -177,6 +177,20 @@ impl MainEventLoop {
 	}
 }
 
+#[cfg(feature = "breard_r_acmed_verif")]
+impl MainEventLoop {
+	#[allow(clippy::type_complexity)]
+	pub fn verif_parts(
+		&self,
+	) -> (
+		&HashMap<String, Certificate>,
+		&HashMap<String, AccountSync>,
+		&HashMap<String, EndpointSync>,
+	) {
+		(&self.certificates, &self.accounts, &self.endpoints)
+	}
+}
+
 async fn renew_certificate(
 	certificate: &mut Certificate,
 	account_s: AccountSync,
